@@ -148,6 +148,17 @@ struct Script {
     ws: bool,
     /// the caller-supplied `verify` panics (`verify_ok` is false as well: nothing may be published)
     verify_panics: bool,
+    /// flavour of the verify callback: 0 plain, 1 panics with a String, 2 with a &'static str, 3 with a
+    /// non-string payload, 4 slow (sleeps, then answers `verify_ok`)
+    verify_kind: u8,
+    /// the caller-supplied digest `Write` refuses once more than N bytes were fed: (N, panics instead of Err)
+    dfault: Option<(u64, bool)>,
+    /// the write_file pullers entered through `pull_stream::<()>(.., StreamOutput::..)` instead of the
+    /// convenience function (documented twins)
+    via_ps: bool,
+    /// presentation of the peer's answers that the model does not see (query bytes of the last flag, error
+    /// codes and bodies, stream ids, format codes, resource names): must not matter
+    style: u64,
 }
 
 /// Deterministic filler for large bodies (`g<seed>.<len>` on the line protocol; twin of `genBytes`).
@@ -196,9 +207,11 @@ fn parse_resp(w: &str) -> Option<Resp> {
 impl Script {
     fn words(&self) -> String {
         let mut s = format!(
-            "{}{} {} {} {} {} {} {} - {} {} wire",
+            "{}{}{}{} {} {} {} {} {} {} - {} {} wire",
             self.puller.name(),
             if self.ws { "@ws" } else { "" },
+            if self.via_ps { "@ps" } else { "" },
+            if self.style != 0 { format!("@s{}", self.style) } else { String::new() },
             if self.zstd { "zstd" } else { "none" },
             if self.beve { "beve" } else { "raw" },
             match self.open {
@@ -206,7 +219,14 @@ impl Script {
                 Open::Err => "err",
                 Open::Cut => "cut",
             },
-            if self.verify_panics { "panic" } else if self.verify_ok { "ok" } else { "rej" },
+            match (self.verify_kind, self.verify_ok) {
+                (1, _) => "panic",
+                (2, _) => "panics",
+                (3, _) => "panicv",
+                (4, true) => "slow",
+                (_, true) => "ok",
+                (_, false) => "rej",
+            },
             self.trailer,
             match self.dest {
                 Dest::Old => "old",
@@ -222,7 +242,13 @@ impl Script {
                 Dec::Err => "err".to_string(),
                 Dec::Ok(b) => body_word(b),
             },
-            if self.sync_fault { "sync".to_string() } else { self.wfault.map(|k| k.to_string()).unwrap_or("-".into()) },
+            if self.sync_fault {
+                "sync".to_string()
+            } else if let Some((n, pan)) = self.dfault {
+                format!("{}{}", if pan { "p" } else { "d" }, n)
+            } else {
+                self.wfault.map(|k| k.to_string()).unwrap_or("-".into())
+            },
         );
         for r in &self.wire {
             s.push(' ');
@@ -244,8 +270,12 @@ impl Script {
         let after = if i < w.len() { w[i + 1..].iter().map(|s| s.to_string()).collect() } else { vec![] };
         Some((
             Script {
-                puller: Puller::parse(w[0].trim_end_matches("@ws"))?,
-                ws: w[0].ends_with("@ws"),
+                puller: Puller::parse(w[0].split('@').next()?)?,
+                ws: w[0].split('@').any(|x| x == "ws"),
+                via_ps: w[0].split('@').any(|x| x == "ps"),
+                style: w[0].split('@').find_map(|x| x.strip_prefix('s').and_then(|n| n.parse().ok())).unwrap_or(0),
+                verify_kind: match w[4] { "panic" => 1, "panics" => 2, "panicv" => 3, "slow" => 4, _ => 0 },
+                dfault: w[9].strip_prefix('d').and_then(|n| n.parse().ok()).map(|n| (n, false)).or(w[9].strip_prefix('p').and_then(|n| n.parse().ok()).map(|n| (n, true))),
                 zstd: w[1] == "zstd",
                 beve: w[2] == "beve",
                 open: match w[3] {
@@ -253,8 +283,8 @@ impl Script {
                     "err" => Open::Err,
                     _ => Open::Cut,
                 },
-                verify_ok: w[4] == "ok",
-                verify_panics: w[4] == "panic",
+                verify_ok: w[4] == "ok" || w[4] == "slow",
+                verify_panics: w[4].starts_with("panic"),
                 trailer: w[5].parse().ok()?,
                 dest: match w[6] {
                     "old" => Dest::Old,
@@ -320,8 +350,10 @@ impl Script {
             logical
         };
         // a write the file system refuses makes the pull a failing one
-        match self.wfault {
-            Some(k) if content.len() as u64 > k => None,
+        match (self.wfault, self.dfault) {
+            (Some(k), _) if content.len() as u64 > k => None,
+            // a digest sink that refuses (or dies) while the content is fed to it fails the copy
+            (_, Some((k, _))) if self.puller.verifies() && content.len() as u64 > k => None,
             _ => Some(content),
         }
     }
@@ -411,9 +443,17 @@ fn answer(f: &RawFrame, reg: &Reg, ids: &AtomicU64, streams: &mut HashMap<u64, A
                 Open::Cut => Act::Close,
                 Open::Err if sess.open_flavour == 0 => frame(f.h.id, 6, 0, b"", 3, b"no such resource"),
                 o => {
-                    let id = ids.fetch_add(1, Ordering::Relaxed);
+                    let st = sess.script.style;
+                    // stream ids are opaque: also 0, u64::MAX, 2^63 (one live stream per connection here)
+                    let id = match (st >> 9) & 3 {
+                        0 => ids.fetch_add(1, Ordering::Relaxed),
+                        1 => 0,
+                        2 => u64::MAX,
+                        _ => 1 << 63,
+                    };
                     streams.insert(id, sess.clone());
-                    let mut r = OpenResp { version: 1, stream_id: id, format: if sess.script.beve { 1 } else { 0 }, compression: sess.script.zstd as u8 };
+                    let raw_fmt = [0u16, 2, 3, 999][((st >> 11) & 3) as usize];
+                    let mut r = OpenResp { version: 1, stream_id: id, format: if sess.script.beve { 1 } else { raw_fmt }, compression: sess.script.zstd as u8 };
                     if o == Open::Err {
                         if sess.open_flavour == 1 {
                             r.version = 2;
@@ -435,9 +475,18 @@ fn answer(f: &RawFrame, reg: &Reg, ids: &AtomicU64, streams: &mut HashMap<u64, A
                 *p += 1;
                 r
             };
+            let st = sess.script.style;
             match r {
-                Resp::Chunk(b, last) => frame(f.h.id, 0, 0, &[last as u8], 0, &b),
-                Resp::Error => frame(f.h.id, 9, 0, b"", 3, b"producer failed"),
+                Resp::Chunk(b, last) => {
+                    // `last` is "the first query byte is 1": every other query is a non-final chunk
+                    let q: &[u8] = if last { [&[1u8][..], &[1, 0], &[1, 9, 9]][((st >> 3) & 3) as usize % 3] } else { [&[0u8][..], &[], &[2], &[0, 1], &[255]][(st & 7) as usize % 5] };
+                    frame(f.h.id, 0, ((st >> 13) & 1) as u16, q, ((st >> 14) & 1) as u16, &b)
+                }
+                Resp::Error => {
+                    let ec = [9u32, 1, 5, 4096, 77, 3][((st >> 5) & 7) as usize % 6];
+                    let body: &[u8] = if (st >> 8) & 1 == 1 { &[0xff, 0xfe, 0x00, 0x80] } else { b"producer failed" };
+                    frame(f.h.id, ec, 0, b"", 3, body)
+                }
                 Resp::Cut => Act::Close,
             }
         }
@@ -551,6 +600,129 @@ fn rej() -> RepeError {
 }
 
 /// Call the real puller. `seen` records what the caller-supplied `verify` was handed.
+/// A digest sink that refuses (Err) or dies (panic) once more than `limit` bytes were fed to it.
+struct FaultyDigest {
+    buf: Vec<u8>,
+    limit: Option<(u64, bool)>,
+}
+impl Write for FaultyDigest {
+    fn write(&mut self, b: &[u8]) -> std::io::Result<usize> {
+        if let Some((n, pan)) = self.limit {
+            if (self.buf.len() + b.len()) as u64 > n {
+                if pan {
+                    std::panic::panic_any(DigestDied);
+                }
+                return Err(std::io::Error::other("digest sink refused"));
+            }
+        }
+        self.buf.extend_from_slice(b);
+        Ok(b.len())
+    }
+    fn flush(&mut self) -> std::io::Result<()> {
+        Ok(())
+    }
+}
+/// a panic payload that is neither a `String` nor a `&str`
+struct DigestDied;
+struct VerifyDied(#[allow(dead_code)] u64);
+
+/// A live client; sequences of pulls reuse one.
+enum Conn {
+    Sync(Client),
+    Async(AsyncClient),
+    Ws(repe::WebSocketClient),
+}
+impl Conn {
+    fn open(rt: &tokio::runtime::Runtime, p: Puller, addr: SocketAddr, ws: Option<SocketAddr>) -> Result<Conn, RepeError> {
+        Ok(match (p.is_async(), ws) {
+            (true, Some(wsa)) => Conn::Ws(rt.block_on(repe::WebSocketClient::connect(&format!("ws://{wsa}"))).map_err(RepeError::Io)?),
+            (true, None) => Conn::Async(rt.block_on(AsyncClient::connect(addr)).map_err(RepeError::Io)?),
+            (false, _) => Conn::Sync(Client::connect(addr).map_err(RepeError::Io)?),
+        })
+    }
+}
+
+#[derive(Clone, Copy, Default)]
+struct Knobs {
+    verify_ok: bool,
+    verify_kind: u8,
+    dfault: Option<(u64, bool)>,
+    via_ps: bool,
+}
+impl Knobs {
+    fn of(sc: &Script) -> Knobs {
+        Knobs { verify_ok: sc.verify_ok, verify_kind: sc.verify_kind, dfault: sc.dfault, via_ps: sc.via_ps }
+    }
+}
+
+fn verify_behaviour(k: Knobs) -> Result<(), RepeError> {
+    match k.verify_kind {
+        1 => panic!("{}", String::from("verify panics (String)")),
+        2 => std::panic::panic_any("verify panics (&'static str)"),
+        3 => std::panic::panic_any(VerifyDied(7)),
+        4 => std::thread::sleep(Duration::from_millis(40)),
+        _ => {}
+    }
+    if k.verify_ok { Ok(()) } else { Err(rej()) }
+}
+
+/// Call the real puller on `conn`. `seen` records what the caller-supplied `verify` was handed.
+fn call_on(rt: &tokio::runtime::Runtime, conn: &Conn, p: Puller, resource: &str, dest: &Path, trailer: usize, k: Knobs, seen: Arc<Mutex<Seen>>) -> Result<(), RepeError> {
+    use repe::value_stream::StreamOutput;
+    let v1 = {
+        let seen = seen.clone();
+        move |d: FaultyDigest| {
+            run_verify_hook();
+            {
+                let mut s = seen.lock().unwrap();
+                s.called = true;
+                s.digest = d.buf;
+            }
+            verify_behaviour(k)
+        }
+    };
+    let v2 = {
+        let seen = seen.clone();
+        move |d: FaultyDigest, t: &[u8]| {
+            run_verify_hook();
+            {
+                let mut s = seen.lock().unwrap();
+                s.called = true;
+                s.digest = d.buf;
+                s.trailer = t.to_vec();
+            }
+            verify_behaviour(k)
+        }
+    };
+    let dg = FaultyDigest { buf: vec![], limit: k.dfault };
+    match conn {
+        Conn::Ws(c) => rt.block_on(async move {
+            match p {
+                Puller::FileAsync => repe::pull_to_file_async(c, resource, dest).await.map(|_| ()),
+                Puller::VerifiedAsync => repe::pull_to_file_verified_async(c, resource, dest, dg, v1).await,
+                _ => repe::pull_to_file_trailer_verified_async(c, resource, dest, trailer, dg, v2).await,
+            }
+        }),
+        Conn::Async(c) => rt.block_on(async move {
+            match p {
+                Puller::FileAsync => repe::pull_to_file_async(c, resource, dest).await.map(|_| ()),
+                Puller::VerifiedAsync => repe::pull_to_file_verified_async(c, resource, dest, dg, v1).await,
+                _ => repe::pull_to_file_trailer_verified_async(c, resource, dest, trailer, dg, v2).await,
+            }
+        }),
+        Conn::Sync(c) => match (p, k.via_ps) {
+            (Puller::File, false) => repe::pull_to_file(c, resource, dest),
+            (Puller::BeveZst, false) => repe::pull_to_beve_zst_file(c, resource, dest),
+            (Puller::Beve, false) => repe::pull_to_beve_file(c, resource, dest),
+            (Puller::File, true) => repe::pull_stream::<()>(c, resource, StreamOutput::RawFile(dest)).map(|_| ()),
+            (Puller::BeveZst, true) => repe::pull_stream::<()>(c, resource, StreamOutput::BeveZstdFile(dest)).map(|_| ()),
+            (Puller::Beve, true) => repe::pull_stream::<()>(c, resource, StreamOutput::BeveFile(dest)).map(|_| ()),
+            _ => repe::pull_to_file_trailer_verified(c, resource, dest, trailer, dg, v2),
+        },
+    }
+}
+
+/// One pull on a fresh client.
 fn call_puller(
     rt: &tokio::runtime::Runtime,
     p: Puller,
@@ -558,59 +730,12 @@ fn call_puller(
     resource: &str,
     dest: &Path,
     trailer: usize,
-    verify_ok: bool,
+    k: Knobs,
     seen: Arc<Mutex<Seen>>,
     ws: Option<SocketAddr>,
 ) -> Result<(), RepeError> {
-    let v1 = {
-        let seen = seen.clone();
-        move |d: Vec<u8>| {
-            run_verify_hook();
-            let mut s = seen.lock().unwrap();
-            s.called = true;
-            s.digest = d;
-            if verify_ok { Ok(()) } else { Err(rej()) }
-        }
-    };
-    let v2 = {
-        let seen = seen.clone();
-        move |d: Vec<u8>, t: &[u8]| {
-            run_verify_hook();
-            let mut s = seen.lock().unwrap();
-            s.called = true;
-            s.digest = d;
-            s.trailer = t.to_vec();
-            if verify_ok { Ok(()) } else { Err(rej()) }
-        }
-    };
-    if let (true, Some(wsa)) = (p.is_async(), ws) {
-        return rt.block_on(async move {
-            let c = repe::WebSocketClient::connect(&format!("ws://{wsa}")).await.map_err(RepeError::Io)?;
-            match p {
-                Puller::FileAsync => repe::pull_to_file_async(&c, resource, dest).await.map(|_| ()),
-                Puller::VerifiedAsync => repe::pull_to_file_verified_async(&c, resource, dest, Vec::<u8>::new(), v1).await,
-                _ => repe::pull_to_file_trailer_verified_async(&c, resource, dest, trailer, Vec::<u8>::new(), v2).await,
-            }
-        });
-    }
-    if p.is_async() {
-        rt.block_on(async move {
-            let c = AsyncClient::connect(addr).await.map_err(RepeError::Io)?;
-            match p {
-                Puller::FileAsync => repe::pull_to_file_async(&c, resource, dest).await.map(|_| ()),
-                Puller::VerifiedAsync => repe::pull_to_file_verified_async(&c, resource, dest, Vec::<u8>::new(), v1).await,
-                _ => repe::pull_to_file_trailer_verified_async(&c, resource, dest, trailer, Vec::<u8>::new(), v2).await,
-            }
-        })
-    } else {
-        let c = Client::connect(addr).map_err(RepeError::Io)?;
-        match p {
-            Puller::File => repe::pull_to_file(&c, resource, dest),
-            Puller::BeveZst => repe::pull_to_beve_zst_file(&c, resource, dest),
-            Puller::Beve => repe::pull_to_beve_file(&c, resource, dest),
-            _ => repe::pull_to_file_trailer_verified(&c, resource, dest, trailer, Vec::<u8>::new(), v2),
-        }
-    }
+    let conn = Conn::open(rt, p, addr, ws)?;
+    call_on(rt, &conn, p, resource, dest, trailer, k, seen)
 }
 
 fn child_main(a: &[String]) -> ! {
@@ -631,7 +756,7 @@ fn child_main(a: &[String]) -> ! {
     let addr: SocketAddr = a[1].parse().expect("addr");
     let rt = tokio::runtime::Builder::new_current_thread().enable_all().build().unwrap();
     let seen = Arc::new(Mutex::new(Seen::default()));
-    let r = call_puller(&rt, p, addr, &a[2], Path::new(&a[3]), a[4].parse().unwrap(), a[5] == "ok", seen.clone(), None);
+    let r = call_puller(&rt, p, addr, &a[2], Path::new(&a[3]), a[4].parse().unwrap(), Knobs { verify_ok: a[5] == "ok", ..Knobs::default() }, seen.clone(), None);
     let mut o = std::io::stdout();
     let sn = seen.lock().unwrap().clone();
     let _ = writeln!(o, "ret {} seen {} trailer {}", if r.is_ok() { "ok" } else { "err" }, digest(&sn.digest), hex(&sn.trailer));
@@ -766,7 +891,7 @@ fn oracles(out: &mut Out, sc: &Script, o: &Obs, op: &str) {
     }
     // a pull that fails before it creates its temp file cannot be blamed for a stale one
     let never_created = sc.open != Open::Ok || !sc.puller.tags_ok(sc.zstd, sc.beve) || sc.dest == Dest::NoParent;
-    if o.panicked && !sc.verify_panics {
+    if o.panicked && !(sc.verify_panics || matches!(sc.dfault, Some((_, true))) || sc.trailer > isize::MAX as usize) {
         out.oracle_fail(&format!("commit.{p}.panic"), "the pull panicked although no caller-supplied code does", &ops);
     }
     if o.tmp && !(sc.dest.stale() && never_created) {
@@ -832,11 +957,7 @@ impl Ctx {
         let dest = prepare_sc(&dir, sc);
         let seen = Arc::new(Mutex::new(Seen::default()));
         let ws = if sc.ws { self.fake.ws_addr } else { None };
-        if sc.verify_panics {
-            *VERIFY_HOOK.lock().unwrap() = Some(Box::new(|| panic!("verify panics")));
-        }
-        let r = catch(|| call_puller(&self.rt, sc.puller, addr, resource, &dest, sc.trailer, sc.verify_ok, seen.clone(), ws));
-        *VERIFY_HOOK.lock().unwrap() = None;
+        let r = catch(|| call_puller(&self.rt, sc.puller, addr, resource, &dest, sc.trailer, Knobs::of(sc), seen.clone(), ws));
         let panicked = r.is_err();
         let r = r.unwrap_or_else(|_| Err(rej()));
         let o = Obs { panicked, ok: r.is_ok(), dest: dest_state(&dest, sc.dest), tmp: tmp_present(&dest), seen: seen.lock().unwrap().clone() };
@@ -855,11 +976,25 @@ impl Ctx {
             return self.exec_wfault(out, idx, sc, &op, flavour);
         }
         let (name, _) = self.fresh();
+        // resource keys are opaque strings: non-ASCII, separators, very long
+        let name = match (sc.style >> 15) & 7 {
+            1 => format!("r\u{e9}s/\u{4e2d}\u{6587} {name}"),
+            2 => format!("{}{name}", "x".repeat(5000)),
+            3 => format!("/_svs/open/{name}?a=b#c"),
+            4 => format!("{name}\u{0}\n"),
+            _ => name,
+        };
         self.fake.register(&name, sc, flavour);
         let o = self.run_inproc(sc, self.fake.addr, &name);
         self.fake.unregister(&name);
         oracles(out, sc, &o, &op);
         count_case(out, sc, "script");
+        if sc.style != 0 {
+            out.count("script.style.nonzero");
+        }
+        if sc.via_ps {
+            out.count("script.entry.pull_stream");
+        }
         out.case(&op, &obs_line(idx, sc, &o), nontrivial(sc));
     }
 
@@ -918,7 +1053,7 @@ impl Ctx {
             *l2.lock().unwrap() = v;
         }));
         let seen = Arc::new(Mutex::new(Seen::default()));
-        let r = call_puller(&self.rt, Puller::Trailer, self.fake.addr, &res, &dest, 7, true, seen, None);
+        let r = call_puller(&self.rt, Puller::Trailer, self.fake.addr, &res, &dest, 7, Knobs { verify_ok: true, ..Knobs::default() }, seen, None);
         self.fake.unregister(&res);
         *VERIFY_HOOK.lock().unwrap() = None;
         let l = listing.lock().unwrap().clone();
@@ -951,13 +1086,13 @@ impl Ctx {
                 // a blocking pull on a plain thread (never a nested block_on)
                 let h = std::thread::spawn(move || {
                     let rt = tokio::runtime::Builder::new_current_thread().enable_all().build().unwrap();
-                    call_puller(&rt, b.puller, addr, &rb, &db, b.trailer, b.verify_ok, Arc::new(Mutex::new(Seen::default())), None).is_ok()
+                    call_puller(&rt, b.puller, addr, &rb, &db, b.trailer, Knobs::of(&b), Arc::new(Mutex::new(Seen::default())), None).is_ok()
                 });
                 *bres.lock().unwrap() = h.join().ok();
             }));
         }
         let seen = Arc::new(Mutex::new(Seen::default()));
-        let r = call_puller(&self.rt, a.puller, self.fake.addr, &ra, &da, a.trailer, a.verify_ok, seen.clone(), None);
+        let r = call_puller(&self.rt, a.puller, self.fake.addr, &ra, &da, a.trailer, Knobs::of(a), seen.clone(), None);
         *VERIFY_HOOK.lock().unwrap() = None;
         self.fake.unregister(&ra);
         self.fake.unregister(&rb);
@@ -1556,8 +1691,10 @@ fn zstd_partial(input: &[u8]) -> Vec<u8> {
 // ------------------------------------------------------------------------------------------
 // generation
 // ------------------------------------------------------------------------------------------
+/// zstd level used for the next scripted compressed streams (the bytes go on the op line, so a replay is exact)
+static ZSTD_LEVEL: std::sync::atomic::AtomicI32 = std::sync::atomic::AtomicI32::new(3);
 fn zstd_of(b: &[u8]) -> Vec<u8> {
-    zstd::encode_all(b, 3).expect("zstd")
+    zstd::encode_all(b, ZSTD_LEVEL.load(Ordering::Relaxed)).expect("zstd")
 }
 
 /// Build the wire for producer chunks `cs`: `k = None` = complete (last on the final data chunk or on a
@@ -1598,7 +1735,7 @@ fn make_script(p: Puller, zstd: bool, logical: &[u8], sizes: &[usize], fault: Op
     let wire_bytes = if zstd { zstd_of(logical) } else { logical.to_vec() };
     let cs = split_at_sizes(&wire_bytes, sizes);
     let wire = wire_of(&cs, fault, last_on_empty);
-    let mut sc = Script { puller: p, zstd, beve: true, open: Open::Ok, verify_ok: true, trailer: 0, dest: Dest::None, dec: Dec::Na, wire, wfault: None, sync_fault: false, ws: false, verify_panics: false };
+    let mut sc = Script { puller: p, zstd, beve: true, open: Open::Ok, verify_ok: true, trailer: 0, dest: Dest::None, dec: Dec::Na, wire, wfault: None, sync_fault: false, ws: false, verify_panics: false, verify_kind: 0, dfault: None, via_ps: false, style: 0 };
     sc.dec = dec_for(&sc);
     sc
 }
@@ -1758,6 +1895,7 @@ fn gen_and_run(args: &Args, out: &mut Out, ctx: &mut Ctx) {
                 sc.trailer = if p.has_trailer() { 4 } else { 0 };
                 sc.verify_ok = false;
                 sc.verify_panics = true;
+                sc.verify_kind = 1 + rng.below(3) as u8;
                 ctx.exec_script(out, &next("s"), &sc, 0);
             }
         }
@@ -1801,6 +1939,7 @@ fn gen_and_run(args: &Args, out: &mut Out, ctx: &mut Ctx) {
     for _ in 0..nrand {
         let p = *rng.pick(&PULLERS);
         let zstd = rng.chance(1, 3);
+        ZSTD_LEVEL.store(*rng.pick(&[1, 3, 3, 7, 19, -3]), Ordering::Relaxed);
         let n = match rng.below(10) {
             0 => 1,
             1 => 8192,
@@ -1838,9 +1977,95 @@ fn gen_and_run(args: &Args, out: &mut Out, ctx: &mut Ctx) {
         if rng.chance(1, 25) {
             sc.open = *rng.pick(&[Open::Err, Open::Cut]);
         }
+        if rng.chance(2, 3) {
+            sc.style = rng.next() & 0x3ffff;
+        }
+        sc.via_ps = !p.is_async() && !p.has_trailer() && rng.chance(1, 2);
+        if p.verifies() && rng.chance(1, 6) {
+            sc.verify_kind = 4; // slow verify
+        }
         let fl = rng.below(3) as u8;
         ctx.exec_script(out, &next("s"), &sc, fl);
     }
+    ZSTD_LEVEL.store(3, Ordering::Relaxed);
+
+    // (B') boundary values of the caller's parameters and of the stream: empty streams, zero bytes in the
+    //      content, trailer_len 0 / huge / usize::MAX, every verify flavour, a digest sink that refuses or dies
+    for &p in &PULLERS {
+        for zstd in [false, true] {
+            if !p.tags_ok(zstd, true) {
+                continue;
+            }
+            ZSTD_LEVEL.store(*rng.pick(&[1, 3, 9, 19, -5]), Ordering::Relaxed);
+            // the empty stream: one empty `last` chunk, or an error / cut straight away
+            if !zstd {
+                for (fault, dest) in [(None, Dest::None), (None, Dest::Old), (Some((0usize, Resp::Error)), Dest::Old), (Some((0usize, Resp::Cut)), Dest::None)] {
+                    let mut sc = make_script(p, false, &[], &[4], fault, true);
+                    sc.dest = dest;
+                    sc.style = rng.next() & 0x3ffff;
+                    ctx.exec_script(out, &next("b"), &sc, 0);
+                }
+            }
+            // content with zero bytes and long runs
+            let ln = 40 + rng.below(40) as usize;
+            let mut logical: Vec<u8> = rng.bytes(ln);
+            for j in 0..logical.len() {
+                if j % 3 == 0 {
+                    logical[j] = 0;
+                }
+            }
+            let n = logical.len();
+            let mk = |rng: &mut Rng, fault: Option<(usize, Resp)>| {
+                let mut sc = make_script(p, zstd, &logical, &[17, 5, 23], fault, rng.chance(1, 2));
+                sc.dest = *rng.pick(&[Dest::None, Dest::Old]);
+                sc.style = rng.next() & 0x3ffff;
+                sc.via_ps = !p.is_async() && !p.has_trailer() && rng.chance(1, 2);
+                sc
+            };
+            let sc = mk(&mut rng, None);
+            ctx.exec_script(out, &next("b"), &sc, 0);
+            if p.has_trailer() {
+                for t in [0usize, 1, n, 1 << 20, usize::MAX] {
+                    for vok in [true, false] {
+                        let mut sc = mk(&mut rng, None);
+                        sc.trailer = t;
+                        sc.verify_ok = vok;
+                        ctx.exec_script(out, &next("b"), &sc, 0);
+                    }
+                }
+            }
+            if p.verifies() {
+                for kind in 1..=4u8 {
+                    for fault in [None, Some((1usize, Resp::Error))] {
+                        let mut sc = mk(&mut rng, fault);
+                        sc.trailer = if p.has_trailer() { 3 } else { 0 };
+                        sc.verify_kind = kind;
+                        sc.verify_panics = kind <= 3;
+                        sc.verify_ok = kind == 4;
+                        ctx.exec_script(out, &next("b"), &sc, 0);
+                    }
+                }
+                let tr = if p.has_trailer() { 3 } else { 0 };
+                let w = n - tr;
+                for lim in [0u64, 1, 16, 17, w as u64 - 1, w as u64, w as u64 + 1] {
+                    for pan in [false, true] {
+                        let mut sc = mk(&mut rng, None);
+                        sc.trailer = tr;
+                        sc.dfault = Some((lim, pan));
+                        ctx.exec_script(out, &next("b"), &sc, 0);
+                    }
+                }
+                // … combined with a stream that breaks before / after the sink does
+                for k in [1usize, 2] {
+                    let mut sc = mk(&mut rng, Some((k, Resp::Cut)));
+                    sc.trailer = tr;
+                    sc.dfault = Some((20, rng.chance(1, 2)));
+                    ctx.exec_script(out, &next("b"), &sc, 0);
+                }
+            }
+        }
+    }
+    ZSTD_LEVEL.store(3, Ordering::Relaxed);
 
     // (C) the crate's own Server with failing reader / writer producers: failure after every chunk
     //     boundary +-1 byte
@@ -1882,7 +2107,7 @@ fn gen_and_run(args: &Args, out: &mut Out, ctx: &mut Ctx) {
                 let fk = if kind == 2 { f.map(|n| n / 2) } else { f };
                 let r = Real { kind, panics, chunk, fail: fk, depth: rng.below(5) as usize, payload: if kind == 2 { payload[..payload.len() / 2].to_vec() } else { payload.clone() } };
                 let (wire, dec) = real_wire(&r, zstd);
-                let mut sc = Script { puller: p, zstd, beve: kind == 2, open: Open::Ok, verify_ok: true, trailer: if p.has_trailer() { 8 } else { 0 }, dest: *rng.pick(&[Dest::None, Dest::Old]), dec, wire, wfault: None, sync_fault: false, ws: false, verify_panics: false };
+                let mut sc = Script { puller: p, zstd, beve: kind == 2, open: Open::Ok, verify_ok: true, trailer: if p.has_trailer() { 8 } else { 0 }, dest: *rng.pick(&[Dest::None, Dest::Old]), dec, wire, wfault: None, sync_fault: false, ws: false, verify_panics: false, verify_kind: 0, dfault: None, via_ps: false, style: 0 };
                 if p.verifies() && f.is_none() && rng.chance(1, 3) {
                     sc.verify_ok = false;
                 }
@@ -2139,6 +2364,10 @@ fn replay(ops: Vec<String>, out: &mut Out, ctx: &mut Ctx) {
                         sync_fault: false,
                         ws: false,
                         verify_panics: false,
+                        verify_kind: 0,
+                        dfault: None,
+                        via_ps: false,
+                        style: 0,
                     };
                     ctx.exec_value(out, &idx, w[2] == "async", &sc, w[7].parse().unwrap_or(0));
                 }
